@@ -17,6 +17,7 @@ import XlModel.Lemmas.SaveCols2
 import XlModel.Lemmas.SaveCols3
 import XlModel.Lemmas.SaveCols4
 import XlModel.Lemmas.SaveBook
+import XlModel.Lemmas.SaveMerge
 import XlModel.Lemmas.SaveBook2
 import XlModel.Lemmas.SaveBook3
 import XlModel.Lemmas.SaveCols
@@ -339,6 +340,24 @@ theorem inv_witness :
     simp only [List.mem_singleton] at ht
     subst ht
     exact stored_xml_legal _
+
+/-! ## merged ranges: `MergeCell` appends, `workSheetWriter` normalises overlapping ranges in place -/
+
+/-- when no two stored merged ranges overlap, the save-time normalisation (`flatMergedCells`) leaves the
+list unchanged, hence every cell is redirected to the same anchor before and after save + open -/
+theorem merges_preserved_when_disjoint (l : List SaveMerge.Rect)
+    (h : l.Pairwise fun a b => SaveMerge.overlap b a = false) (c r : Nat) :
+    SaveMerge.normalize l = l ∧ SaveMerge.anchorOf (SaveMerge.normalize l) c r = SaveMerge.anchorOf l c r := by
+  rw [SaveMerge.normalize_of_disjoint l h]; exact ⟨rfl, rfl⟩
+
+/-- OPEN FINDING (same root cause as C02's `twin:overlapping-merges-normalised-at-save`; `TestMergeCell`
+pins the lazy `MergeCell`): with the stored ranges `B1:C7` and `B5:E5` the save replaces them by their
+bounding range `B1:E7`; cell `E1` lies in neither stored range, so it reads its own value before the save
+and the value of `B1` after save + open. -/
+theorem finding_overlapping_merges_normalised_at_save :
+    SaveMerge.normalize [⟨2, 1, 3, 7⟩, ⟨2, 5, 5, 5⟩] = [⟨2, 1, 5, 7⟩] ∧
+    SaveMerge.anchorOf [⟨2, 1, 3, 7⟩, ⟨2, 5, 5, 5⟩] 5 1 = (5, 1) ∧
+    SaveMerge.anchorOf (SaveMerge.normalize [⟨2, 1, 3, 7⟩, ⟨2, 5, 5, 5⟩]) 5 1 = (2, 1) := by decide
 
 /-! ## `inv_step`: the invariant holds on states reached by cell writes -/
 
